@@ -207,6 +207,10 @@ class GroupBy:
                 group_keys.group_ikey,
                 group_keys.result_index,
             )
+            self._key_index = group_keys._key_index
+            self._index_is_sorted = group_keys._index_is_sorted
+            self._group_key_pointers = group_keys._group_key_pointers
+            self._sort = group_keys._sort
             return
 
         group_key_list, group_key_names = convert_data_to_arr_list_and_keys(group_keys)
